@@ -7,6 +7,9 @@ def _std(lab):
     det = Det("det", lab, [m1, m2])
     sig = Signal("sig", lab)
     fly = Flyer("fly", lab)
+    if getattr(lab, "poke_on_stop", False):
+        # a document consumer that reacts to the RunStop by touching the monitored signal
+        lab.RE.subscribe(lambda name, doc: sig.put(999), "stop")
     return dict(m1=m1, m2=m2, det=det, sig=sig, fly=fly)
 
 
@@ -505,5 +508,28 @@ def monitor_mid(lab):
     return plan(), d
 
 
-CORPUS = dict(monitor_mid=monitor_mid, stubbed=stubbed, sparse=sparse, two_runs_cleared=two_runs_cleared, late_wait=late_wait, norewind_section=norewind_section, configure_mid=configure_mid, count_norewind=count_norewind, declared=declared, double_stage=double_stage, failpause=failpause, defer_failpause=defer_failpause, count2=count2, scan2=scan2, scan3=scan3, rel_scan2=rel_scan2, list_scan2=list_scan2, grid2x2=grid2x2, adaptive=adaptive, tune=tune,
+def monitor_meta(lab):
+    """A monitor on a non-default event type ('meta'), left for the engine / close_run to remove."""
+    from bluesky.utils import Msg
+
+    d = _std(lab)
+    sig, m = d["sig"], d["m1"]
+    sig.update_type = "meta"
+
+    def plan():
+        yield Msg("open_run")
+        yield Msg("checkpoint")
+        yield Msg("monitor", sig, name="sig_monitor", event_type="meta")
+        yield Msg("checkpoint")
+        yield Msg("set", m, 1.0, group="g")
+        yield Msg("wait", None, group="g")
+        yield Msg("null", None, "monitored")
+        yield Msg("set", m, 2.0, group="g")
+        yield Msg("wait", None, group="g")
+        yield Msg("close_run")
+
+    return plan(), d
+
+
+CORPUS = dict(monitor_meta=monitor_meta, monitor_mid=monitor_mid, stubbed=stubbed, sparse=sparse, two_runs_cleared=two_runs_cleared, late_wait=late_wait, norewind_section=norewind_section, configure_mid=configure_mid, count_norewind=count_norewind, declared=declared, double_stage=double_stage, failpause=failpause, defer_failpause=defer_failpause, count2=count2, scan2=scan2, scan3=scan3, rel_scan2=rel_scan2, list_scan2=list_scan2, grid2x2=grid2x2, adaptive=adaptive, tune=tune,
               fly1=fly1, bare=bare, cleanup=cleanup, staged_monitor=staged_monitor, nested_runs=nested_runs, flymon=flymon)
